@@ -155,4 +155,3 @@ func Craft(p *Params, r *lib.Rng, sig []byte) ([]Crafted, error) {
 	add("bitflip", lib.FlipBit(sig, 8*(hoff+om)+r.Intn(8*k)))
 	return out, nil
 }
-
